@@ -413,3 +413,14 @@ Example C03_play_tlid_mid_pass_example :
   /\ map tlid (shuffled w') = [2; 4] /\ option_map tlid (current w') = Some 3.
 Proof. vm_compute. repeat split; reflexivity. Qed.
 Print Assumptions C03_play_tlid_mid_pass_example.
+
+(* ... while a preloaded entry stays in the order until its stream starts (an abandoned preload
+   is still visited in this pass). *)
+Theorem C03_preload_keeps_shuffle_order :
+  forall shuf f x c len w,
+  settled_on w c -> pstate w = Playing -> a_atf_done w = false ->
+  len_of w (trk c) = Some len -> accepts w x -> announces_eot shuf w c x ->
+  let w' := run_world shuf (S f) w [AboutToFinish] in
+  shuffled w' = shuffled w /\ pending w' = Some x /\ current w' = Some c /\ World.tl w' = World.tl w.
+Proof. exact preload_keeps_order. Qed.
+Print Assumptions C03_preload_keeps_shuffle_order.
